@@ -26,6 +26,7 @@ HIST = [
     [2, T, [S("c-t")]],
     [3, T, 1],
     [8],
+    [9],
     [6, T, [2, 3], 1],
     [6, T, [4, 5], 0],
     [1, S("DB2")],
@@ -35,7 +36,7 @@ HIST = [
     [7, TV],
     [6, T, [8, 9], 0],          # left open when the process ends
 ]
-MODEL_HIST = [[0, S("DB1"), S("S1")] if o[0] == 0 else o for o in HIST if o[0] not in (7, 8)]
+MODEL_HIST = [[0, S("DB1"), S("S1")] if o[0] == 0 else o for o in HIST if o[0] not in (7, 8, 9)]
 
 
 def run_child(args, cwd=None):
@@ -68,6 +69,14 @@ def one_run(base, tag, mode, hist_file):
     calls, done = read_trace(trace)
     shutil.rmtree(d, ignore_errors=True)
     return {"mode": mode, "writer_rc": w.returncode, "writer_err": w.stderr[-300:], "reader_rc": r.returncode, "reader_err": r.stderr[-400:], "dump": dump, "calls": calls, "done": done}
+
+
+def tables_all(r):
+    return {".".join(unstr(x) for x in t[0]) for t in r["dump"]["engine"][2]}
+
+
+def cmts_all(r):
+    return {".".join(unstr(x) for x in c[0]) for c in r["dump"]["engine"][3]}
 
 
 def canon(e):
@@ -147,6 +156,10 @@ def main():
             got[1] = [t for t in got[1] if unstr(t[0][2]) != "TV"]
             want = canon(m)
             rep = {"exit": r["mode"], "engine_calls_before_death": len(calls), "completed_operations": r["done"], "found_after_restart": got, "model_disk": want, "history": HIST}
+            # (0) nothing of a rolled-back transaction (table, comment, lengths) may be on disk
+            ghosts = [k_ for k_ in cmts_all(r) if k_ not in tables_all(r)]
+            if ghosts or "DB1.S1.GHOST" in tables_all(r) or any(x[0] == "GHOST" for x in r["dump"]["lengths"]):
+                report("ghost", f"{r['mode']}: metadata or objects of work that was rolled back are on disk: comments for {ghosts}, tables {sorted(tables_all(r))}, lengths {r['dump']['lengths']}", rep)
             # (1) model's disk vs what a fresh process finds
             if got != want:
                 report("model", f"{r['mode']}: a fresh process finds {got}, the model's disk after {len(calls)} engine calls is {want}", dict(rep, theorem="Props_C18.committed_survives"), no_input=True)
@@ -159,16 +172,16 @@ def main():
             cmts = {".".join(unstr(x) for x in c[0]): unstr(c[1]) for c in got[2]}
             done = set(r["done"]) if kind in ("kill", "clean", "raise") else set(range(len(HIST)))
             trows = rows.get("DB1.S1.T")
-            must = [v for j, vs in ((2, [1]), (4, [2, 3]), (9, [6])) if j in done for v in vs]
+            must = [v for j, vs in ((2, [1]), (5, [2, 3]), (10, [6])) if j in done for v in vs]
             if any(v not in (trows or []) for v in must):
                 report("lost", f"{r['mode']}: operations {sorted(done)} had completed but table T holds {trows}: committed rows {must} lost", rep)
             if trows and (set(trows) & {4, 5, 8, 9}):
                 report("uncommitted", f"{r['mode']}: rows of a rolled-back / never committed transaction are on disk: {trows}", rep)
             if trows and len(set(trows) & {2, 3}) == 1:
                 report("txatomic", f"{r['mode']}: half of a committed transaction is on disk: {trows}", rep)
-            if 8 in done and rows.get("DB2.main.U") != [7]:
+            if 9 in done and rows.get("DB2.main.U") != [7]:
                 report("lost2", f"{r['mode']}: DB2.main.U holds {rows.get('DB2.main.U')} after its insert had completed", rep)
-            for tname, j, c in (("DB1.S1.T", 1, "c-t"), ("DB2.main.U", 7, "c-u")):
+            for tname, j, c in (("DB1.S1.T", 1, "c-t"), ("DB2.main.U", 8, "c-u")):
                 if j in done and cmts.get(tname) != c:
                     report("comment", f"{r['mode']}: the comment of {tname} is {cmts.get(tname)!r} after CREATE TABLE ... COMMENT had completed", rep)
                 if tname in rows and j not in done and cmts.get(tname) != c:
